@@ -107,6 +107,12 @@ class World:
         self.connect_plan = []      # outcomes for successive dials: "ok" | "inprogress" | errno
         self._wrap_node()
         self.started = False
+        self.pick = "first"
+
+        def select(node, app, message, peers):
+            self.s.emit("select", a=getattr(app, "vname", "?"), offered=[p.node_name for p in peers])
+            return peers[-1] if self.pick == "last" else peers[0]
+        self.node.peer_route_select_func = select
 
     # ------------------------------------------------------------------
     def _wrap_node(self):
